@@ -286,7 +286,13 @@ fn offender_case() -> impl Strategy<Value = TreeCase> {
             ClauseSpec::Single {
                 method: m,
                 entry: if ordered { Entry::Each } else { Entry::Next },
-                pat: PatternSpec { id: 400, mask: 0xff, matcher: MatcherKind::FuncDebug, chain: vec![Seg { resp: Resp::Answers, quant: Quant::None }] },
+                // (an offending ORDERED clause may also be quantified n_times(0): it is still a mention in the other mode)
+                pat: PatternSpec {
+                    id: 400,
+                    mask: 0xff,
+                    matcher: MatcherKind::FuncDebug,
+                    chain: vec![Seg { resp: Resp::Answers, quant: if !ordered && kind % 2 == 1 { Quant::NTimes(0) } else { Quant::None } }],
+                },
             }
         };
         scn.clauses.insert(at, offender);
